@@ -158,7 +158,7 @@ def _needs_relink(
 ) -> bool:
     destination = meta.destination
     is_symlink = meta.is_link
-    is_hardlink = meta.nlink > 1
+    is_hardlink = meta.nlink > 1 and not is_symlink
     is_copy = not is_symlink and not is_hardlink
 
     for link_type in cache.cache_types:
